@@ -11,6 +11,10 @@ from harness.runner import Check
 from props import _cli
 
 FORMATS = ["json", "json5", "yaml", "xml", "html", "plist"]
+# file names are data too: the error message has to NAME the file, whatever characters the name is made of (URL-encoded names,
+# printf / str.format / shell metacharacters, blanks, non-ASCII)
+STEMS = ["bad", "my%20file", "bad", "100%", "a%sb", "bad", "{0}", "{}x", "na me", "bad", "d\u00e9j\u00e0", "a%%b", "$HOME", "semi;colon",
+         "bad", "it's", "%(name)s", "back\\slash", "-dash"]
 DELIMS = {
     "json": '{}[],:"', "json5": '{}[],:"\'/', "yaml": ":-[]{},\"'\n#&*!|>", "xml": "<>/=\"&;", "html": "<>/=\"&;",
     "plist": "<>/=\"&;",
@@ -106,13 +110,16 @@ def run():
                 if fmt in v or fmt in und:
                     continue          # still valid, or only invalid as a byte encoding: not a syntax error
                 kept[fmt] += 1
-                path = mats.file(bad, _cli.EXT[fmt], "bad")
+                stem = STEMS[sum(kept.values()) % len(STEMS)]
+                if stem.startswith("-"):
+                    stem = "x" + stem          # a leading dash would be read as an option: not a file name the command can be given
+                path = mats.file(bad, _cli.EXT[fmt], stem)
                 for pos in ("from", "to"):
                     f, g = (path, good) if pos == "from" else (good, path)
                     cfg = _cli.base_cfg(fromExt=fmt, toExt=fmt,
                                         fromValid=[] if pos == "from" else [fmt], toValid=[fmt] if pos == "from" else [])
                     jobs.append({"argv": [f, g, "--no-status", "--no-color"], "from": f, "to": g, "cfg": cfg,
-                                 "meta": {"format": fmt, "doc": di, "corruption": name, "position": pos,
+                                 "meta": {"format": fmt, "doc": di, "corruption": name, "position": pos, "stem": stem,
                                           "content": bad.decode("latin-1")[:400]}})
     # both files malformed at once - the same bytes twice (a copy, or the very same path) - in every output mode: nothing
     # about the pair (e.g. "identical, so there is nothing to report") may come before parsing
@@ -128,7 +135,7 @@ def run():
                 cfg = _cli.base_cfg(fromExt=fmt, toExt=fmt, fromValid=[], toValid=[])
                 jobs.append({"argv": [bad_path, second, "--no-status", "--no-color"] + mode, "from": bad_path, "to": second, "cfg": cfg,
                              "meta": {"format": fmt, "doc": j["meta"]["doc"], "corruption": j["meta"]["corruption"] + " x2 (" + how + ")" + " ".join(mode),
-                                      "position": "both", "content": j["meta"]["content"]}})
+                                      "position": "both", "content": j["meta"]["content"], "stem": j["meta"]["stem"]}})
     records = _cli.execute(jobs)
     errs, st = _cli.validate(records)
     chk.add_trace_stats(st, "CliTrace", len(records))
@@ -139,7 +146,7 @@ def run():
         if v["step"]:
             exc = rec["exc"].split(":")[0] if rec["exc"] else ""
             sig = {"clause": v["clause"], "format": m["format"], "exc": exc, "where": rec.get("where", "")}
-            chk.violation(sig, {"format": m["format"], "content": m["content"], "position": m["position"]},
+            chk.violation(sig, {"format": m["format"], "content": m["content"], "position": m["position"], "stem": m["stem"]},
                           "%s file (%s, as %s file): %s; rc=%s exc=%s stderr=%r" % (
                               m["format"], m["corruption"], m["position"], v["clause"], rec["rc"], rec["exc"], rec["err"][:120]))
     for i in (0, len(jobs) // 2, len(jobs) - 1):
@@ -155,8 +162,9 @@ def run():
                 "deletion and duplication of every delimiter occurrence, every closing bracket replaced by an opening one, "
                 "adjacent different closing tags swapped%s; kept only if the format's reference parser (json, json5, "
                 "yaml, ElementTree, plistlib) rejects the text; each used as first and as second file; distinct by "
-                "(format, corrupted text, position); all kept faults are non-trivial"
-                % (FORMATS, ndocs, " (sampled to %d per document)" % budget if budget else ""))
+                "(format, corrupted text, position); the corrupted file's NAME cycles through %d stems with URL-encoding, printf / "
+                "str.format / shell metacharacters, blanks and non-ASCII; all kept faults are non-trivial"
+                % (FORMATS, ndocs, " (sampled to %d per document)" % budget if budget else "", len(set(STEMS))))
     chk.assumptions = ["validity is decided by the reference parser of each format",
                        "files that are not valid UTF-8 are malformed for JSON, JSON5, YAML and XML without an encoding declaration, and "
                        "undecided (skipped) for HTML (lenient parsers) and plist (binary variants)",
@@ -171,7 +179,7 @@ def replay(path):
     chk = Check("C20", "fault_enumeration")
     mats = _cli.Materials()
     fmt = rp["format"]
-    bad = mats.file(rp["content"].encode("latin-1"), _cli.EXT[fmt], "bad")
+    bad = mats.file(rp["content"].encode("latin-1"), _cli.EXT[fmt], rp.get("stem", "bad"))
     good = mats.file(_cli.serialise(fmt, _cli.DATA_B, "B"), _cli.EXT[fmt], "good")
     f, g = (bad, good) if rp["position"] == "from" else (good, bad)
     cfg = _cli.base_cfg(fromExt=fmt, toExt=fmt, fromValid=[] if rp["position"] == "from" else [fmt],
